@@ -169,7 +169,7 @@ impl<T: crate::EventSource> TransientSourceState<T> {
         &&& (r is Ok && r->Ok_0 is Continue) ==> n.st() is Keep || !(o.st() is Keep)
     }
 //@ endregion
-//@ item src/sources/transient.rs / impl crate::EventSource for TransientSource<T> / fn process_events props=C18 ret=r
+//@ item src/sources/transient.rs / impl crate::EventSource for TransientSource<T> / fn process_events props=C18 ret=r splitarms
 //@ rw R8 1 <<process_events<F>>> => <<process_events<CbF>>>
 //@ rw R8 1 <<callback: F,>> => <<callback: CbF,>>
 //@ rw R8 1 <<F: FnMut(Self::Event>> => <<CbF: FnMut(Self::Event>>
@@ -184,7 +184,7 @@ impl<T: crate::EventSource> TransientSourceState<T> {
 //@ entry
         proof { broadcast use axiom_droppable; }
 //@ enditem
-//@ item src/sources/transient.rs / impl crate::EventSource for TransientSource<T> / fn reregister props=C18 ret=r
+//@ item src/sources/transient.rs / impl crate::EventSource for TransientSource<T> / fn reregister props=C18 ret=r splitarms
 //@ spec
         ensures
             // F6a (known finding): a disabled child is unregistered here but the state does not record it
